@@ -110,6 +110,13 @@ def run(chk):
     for i, L in enumerate(CORPUS):
         one_history(chk, sess, L, "corpus%d" % i, "corpus")
     cancel_family(chk, sess, chk.n(80, 1500))
+    # directed: a build cancelled while already-built rules are only being SCANNED (waiting on an input that is running): they never had
+    # a task, so the next build must not report them as Forced (their "previous execution" was not interrupted)
+    for nn in range(0, 14):
+        for sched in ("sync", "defer:3"):
+            one_history(chk, sess, ["db 0", "rule 0 sig=0 obs=1", "rule 3 sig=0 obs=0 req=0", "rule 5 sig=0 obs=0 req=3", "rule 7 sig=0 obs=0 req=5", "set 0 1", "build 7", "set 0 2",
+                                    "build 7 sched=%s cancel=cb:%d" % (sched, nn), "build 7", "set 0 3", "build 7 sched=%s cancel=iter:%d" % (sched, nn), "build 7"],
+                        "corpus-scan-cancel", "corpus scan-cancel cb/iter:%d %s" % (nn, sched), model=False)
     for i in range(n):
         rng = random.Random(chk.rng.random())
         L = add_null_builds(rng, E.gen_history(rng, sched=SCHEDS[i % 3], nops=(3, 12)))
